@@ -3,7 +3,10 @@ Cases: `cap <c>` (Context::with_capacity) then op lines (see harness/src/c09.rs)
 from framework import Case
 
 PROP = 'C09'
-TRANSLATORS = ['ugraph']
+# tools/rs2lean_context.py regenerates lean/DcVerif/Gen/Ctx.lean from the current source of Context (one definition per public
+# function); Props/C09Gen.lean proves every generated definition equal to the hand model the C09 theorems are about
+TRANSLATORS = ['ugraph', 'context']
+EXTRA_THEOREM_MODULES = ['DcVerif.Props.C09Gen']
 RULE = ('histories of 1-70 ops (thorough: up to 200) interleaving base-context operations (add/rmnode/edge/rmedge + observers), '
         'creation of extra contexts (default or not, capacities 0-3), switching / unsetting / mis-setting the current context, '
         'extra-context node and edge operations (with and without a selection), and set_index/get_index on both maps with colliding '
